@@ -25,6 +25,7 @@ ASSUMPTIONS = [
 ]
 MIN_NONTRIVIAL = 50
 REQUIRED_COUNTERS = {'c06_f_cells': 6000, 'c06_entries_checked': 20,
+                     'c06_pushes_during_a_job_before_the_pr_read': 8,
                      'c06_refusals_checked': 20}
 SHARD_TIMEOUT = {'quick': 900, 'thorough': 5400}
 MONITORS = [monitors.c06_build_gate]
@@ -150,8 +151,16 @@ def run_shard(spec, acc):
         n_hist, jobs, cap = 8, 12, 600
     else:
         n_hist, jobs, cap = 100, 22, 4800
+    # the author pushes while the deciding job runs, before the robot reads
+    # the pull requests back from the host (integration pull requests on,
+    # as by default): the host has told Bert-E about a never-built tip
+    directed = [({'layout': layout, 'queue_mode': qm, 'settings': {
+        'always_create_integration_pull_requests': True}},
+        gen.OPENERS['source_pushed_during_job'])
+        for layout in ('d1', 'd2', 's1d2', 'd3')
+        for qm in ('queue', 'noqueue', 'skipqueue')]
     runner.run_histories(spec, acc, configs(), prof, MONITORS, n_hist, jobs,
-                         openers=openers, soft_cap_s=cap)
+                         openers=openers, soft_cap_s=cap, directed=directed)
 
 
 def finalize(acc, tier, seed):
